@@ -482,7 +482,16 @@ class Engine:
     def ev_IfExp(self, e, st):
         raise OutOfSubset('conditional expression at line %d' % e.lineno)
 
+    def unwrap_operand(self, v, st, line):
+        if v.ty.k == 'opt' and v.ty.a[0].k in ('ref', 'int', 'real'):
+            # None as an operand raises TypeError: must not happen (safety obligation)
+            self.emit('safe.operand_not_none@%d' % line, st, z3.Not(v.none), line, tag='aux')
+            st.pc.append(z3.Not(v.none))
+            return V(v.ty.a[0], v.t)
+        return v
+
     def arith(self, op, a, b, st, line):
+        a, b = self.unwrap_operand(a, st, line), self.unwrap_operand(b, st, line)
         if a.ty.k == 'opt' or b.ty.k == 'opt':
             raise OutOfSubset('arithmetic on optional at line %d' % line)
         if a.ty.k in ('int', 'real') and b.ty.k in ('int', 'real'):
@@ -794,6 +803,8 @@ class Engine:
                 if j < 0:
                     j += len(base.ty.a)
                 return V(base.ty.a[j], st.heap.fld(None, 't%d' % j, base.t))
+        if base.ty.k == 'ref' and self.reg.lookup_method(base.ty.a[0], '__getitem__') is not None:
+            return self.call_method(st, base, '__getitem__', [self.ev(e.slice, st)], {}, e.lineno)
         raise OutOfSubset('subscript of %r at line %d' % (base.ty, e.lineno))
 
     def list_elem(self, st, lst, i):
@@ -819,9 +830,10 @@ class Engine:
         return V(T('set'), items=[self.ev(x, st) for x in e.elts])
 
     def ev_List(self, e, st):
-        if e.elts:
-            raise OutOfSubset('non-empty list literal at line %d' % e.lineno)
-        return self.new_list(st, TAny)
+        out = self.new_list(st, TAny)
+        for x in e.elts:
+            self.list_append(st, out, self.ev(x, st), e.lineno)
+        return out
 
     def new_list(self, st, et):
         l = self.alloc(st, 'list')
@@ -891,6 +903,8 @@ class Engine:
         args = None
         f = e.func
         kw = {}
+        if isinstance(f, ast.Name) and f.id == 'print' and 'print' not in st.env:
+            return VNONE          # dropped (extraction report): its argument expressions are assumed not to raise
         # method call
         if isinstance(f, ast.Attribute):
             # super().__init__(...)
@@ -1151,9 +1165,10 @@ class Engine:
             raise DeadPath()
         # havoc
         mods = c.modifies(S0, a)
-        new_alloc = fresh('alloc', I)
-        st.pc.append(new_alloc >= S0.alloc)
-        st.heap.alloc = new_alloc
+        if c.allocates:
+            new_alloc = fresh('alloc', I)
+            st.pc.append(new_alloc >= S0.alloc)
+            st.heap.alloc = new_alloc
         for name in c.touches(S0, a):
             old = st.heap.A(name, c.array_sort(name))
             new = fresh(name, old.sort())
@@ -1338,6 +1353,19 @@ class Engine:
                 return [st]
             raise OutOfSubset('augmented subscript store on %r at line %d' % (base.ty, s.lineno))
         cur = self.ev(t, st)
+        if cur.ty.k == 'list' and isinstance(s.op, ast.Add):
+            # l += other : list.__iadd__ extends the SAME list object in place
+            other = self.ev(s.value, st)
+            if other.ty.k != 'list':
+                raise OutOfSubset('list += %r at line %d' % (other.ty, s.lineno))
+            et = cur.ty.a[0] if cur.ty.a[0].k != 'any' else other.ty.a[0]
+            arr = 'eltR' if et.k == 'real' else 'eltI'
+            n, m = st.heap.len(cur.t), st.heap.len(other.t)
+            iq = fresh('iq', I)
+            old_e, oth_e = st.heap.A(arr)[cur.t], st.heap.A(arr)[other.t]
+            st.heap.set(arr, z3.Store(st.heap.A(arr), cur.t, z3.Lambda([iq], z3.If(iq < n, old_e[iq], oth_e[iq - n]))))
+            st.heap.set('len', z3.Store(st.heap.A('len'), cur.t, n + m))
+            return [st]
         if cur.ty.k == 'vec' and cur.py != 'fresh':
             raise OutOfSubset('in-place update of a numpy array that is not locally created (aliasing) at line %d' % s.lineno)
         new = self.arith(s.op, cur, self.ev(s.value, st), st, s.lineno)
@@ -1551,7 +1579,7 @@ class Engine:
             self.emit('loop%d.init[%s]' % (n, lab), entry, f, s.lineno, tag='aux')
 
         # ---- discover which heap arrays an arbitrary iteration may modify (dry run with everything havocked)
-        modset, modglobs = self.discover_mods(s, entry, it, modified, n)
+        modset, modglobs, alloc_mod = self.discover_mods(s, entry, it, modified, n)
 
         # ---- arbitrary iteration
         def havocked(tagname):
@@ -1563,9 +1591,10 @@ class Engine:
                     h.env[m] = self.havoc_value(entry.env[m], m)
                 elif m not in targets:
                     h.env.pop(m, None)
-            na = fresh('alloc', I)
-            h.pc.append(na >= entry.heap.alloc)
-            h.heap.alloc = na
+            if alloc_mod:
+                na = fresh('alloc', I)
+                h.pc.append(na >= entry.heap.alloc)
+                h.heap.alloc = na
             lm = spec.get('mods', lambda L: {})(ctx(h, None))
             for name in modset:
                 old = entry.heap.A(name)
@@ -1653,7 +1682,8 @@ class Engine:
             old = entry.heap.A(name)
             sym[name] = fresh(name + '_any', old.sort())
             h.heap.set(name, sym[name])
-        h.heap.alloc = fresh('alloc', I)
+        alloc_any = fresh('alloc', I)
+        h.heap.alloc = alloc_any
         h0glob = dict(h.heap.glob)
         direct = self.directly_assigned(s.body)
         for m in modified:
@@ -1679,7 +1709,8 @@ class Engine:
             for gname, gv in e.heap.glob.items():
                 if gv.t is not None and not gv.t.eq(h0glob[gname].t):
                     modg.add(gname)
-        return sorted(mod), sorted(modg)
+        alloc_mod = any(not e.heap.alloc.eq(alloc_any) for e in all_states)
+        return sorted(mod), sorted(modg), alloc_mod
 
     # positions: dict with keys depending on iteration kind
     def loop_pos_initial(self, it):
@@ -1834,6 +1865,8 @@ class Engine:
         # a normal exit while an exceptional post-condition says "raise"
         for exc, when in c.raises:
             self.emit('raises.must[%s]@%d' % (exc, ex.line), st, z3.Not(when(H0, args)), ex.line)
+        if not c.allocates:
+            self.emit('no_allocation@%d' % ex.line, st, st.heap.alloc == H0.alloc, ex.line, tag='aux')
         # frame
         mods = c.modifies(H0, args)
         for name, cur in sorted(st.heap.arr.items()):
